@@ -651,13 +651,14 @@ fn main() {
                 }
             }
         }
+        let reps = ck.tier.pick(2usize, 4usize);
         ck.run(
             "repeat-builtins",
-            &format!("{} built-in functions x all argument tuples of arity <= {max_ar} over {} values (multi-dimension units, maps in two orders, lists): 5 compilations on this thread + 1 on another thread must agree", names.len(), vals.len()),
+            &format!("{} built-in functions x all argument tuples of arity <= {max_ar} over {} values (multi-dimension units, maps in two orders, lists): {} compilations on this thread + 1 on another thread must agree", names.len(), vals.len(), reps + 1),
             cases.into_iter(),
             |c: &Rep| {
                 let first = rs::compile(c.src.as_bytes(), Fmt::EXPANDED);
-                for k in 0..4 {
+                for k in 0..reps {
                     let again = rs::compile(c.src.as_bytes(), Fmt::EXPANDED);
                     if again != first {
                         return Verdict::fail(format!("compilation {} of the same input in the same thread differs: {} vs {}", k + 2, again.short(), first.short()));
